@@ -3,8 +3,9 @@
   ID, PROP_FILE, DESIGN_REF, TRUSTED (list of str), ASSUMPTIONS (list of str)
   CONFIGS(tier) -> list of impl configurations (default ["san"])
   gen_cases(tier, seed) -> (cases: list[str], info: dict)     case lines for harness and driver
-  judge(case, impl, model) -> None | (sig, message)            property verdict on ONE case given the
-                              implementation's line (and the model's); sig identifies the failure class
+  judge(case, impl, model, spec) -> None | (sig, message)      property verdict on ONE case given the
+                              implementation's line, the model's, and the executable Spec's (driver lines
+                              are "model ## spec" when the op has a functional spec); sig = failure class
   nontrivial(case, impl) -> hashable | None                    key of a distinct non-trivial case
   extra(ctx) -> list of (sig, message, replay) [optional]      further checks (readelf, threads, ...)
 """
@@ -74,9 +75,12 @@ def run_property(mod, tier, seed, replay=None):
             evaluations += 1
             io = impl[k] if k < len(impl) else "MISSING"
             mo = model[k]
-            j = mod.judge(case, io, mo)
+            so = None
+            if mo is not None and " ## " in mo:
+                mo, so = mo.split(" ## ", 1)
+            j = mod.judge(case, io, mo, so)
             if j is not None:
-                viol.append((j[0], j[1], {"case": case, "impl": io, "model": mo, "config": c}))
+                viol.append((j[0], j[1], {"case": case, "impl": io, "model": mo, "spec": so, "config": c}))
             if mo is not None and hasattr(mod, "canon"):
                 a, b = mod.canon(io), mod.canon(mo)
             else:
